@@ -66,6 +66,45 @@ fn analyze_file(curve: &str, paths: &[&str]) -> String {
     out.join(" ")
 }
 
+/// cfgdump <hex source of one definition>  -> JSON list of blocks (before SSA)
+fn cfg_dump(src: &str) -> String {
+    use program_structure::ir::Statement;
+    let def = match parse_definition(src) {
+        Some(d) => d,
+        None => return "PARSEERR".to_string(),
+    };
+    let mut reports = ReportCollection::new();
+    let cfg = match def.into_cfg(&Curve::Bn254, &mut reports) {
+        Ok(cfg) => cfg,
+        Err(e) => return format!("LIFTERR {}", e),
+    };
+    let mut blocks = Vec::new();
+    for b in cfg.iter() {
+        let mut preds: Vec<usize> = b.predecessors().iter().cloned().collect();
+        preds.sort();
+        let mut succs: Vec<usize> = b.successors().iter().cloned().collect();
+        succs.sort();
+        let mut stmts = Vec::new();
+        for s in b.iter() {
+            let start = s.meta().start();
+            match s {
+                Statement::IfThenElse { true_index, false_index, .. } => {
+                    let f = match false_index { Some(f) => f.to_string(), None => "null".to_string() };
+                    stmts.push(format!("[\"branch\", {}, {}, {}]", start, true_index, f));
+                }
+                Statement::Return { .. } => stmts.push(format!("[\"leaf\", {}, true]", start)),
+                Statement::Declaration { .. } => {}
+                _ => stmts.push(format!("[\"leaf\", {}, false]", start)),
+            }
+        }
+        blocks.push(format!(
+            "{{\"index\": {}, \"depth\": {}, \"preds\": {:?}, \"succs\": {:?}, \"stmts\": [{}]}}",
+            b.index(), b.loop_depth(), preds, succs, stmts.join(", ")
+        ));
+    }
+    format!("[{}]", blocks.join(", "))
+}
+
 struct NoContext;
 impl AnalysisContext for NoContext {
     fn is_function(&self, _: &str) -> bool {
@@ -135,6 +174,10 @@ fn main() {
         }
         let r = panic::catch_unwind(|| match w[0] {
             "analyzefile" => analyze_file(w[1], &w[2..]),
+            "cfgdump" => match String::from_utf8(unhex(w.get(1).unwrap_or(&""))) {
+                Ok(s) => cfg_dump(&s),
+                Err(_) => "BADUTF8".to_string(),
+            },
             "analyze" => match String::from_utf8(unhex(w.get(2).unwrap_or(&""))) {
                 Ok(s) => analyze(w[1], &s),
                 Err(_) => "BADUTF8".to_string(),
